@@ -203,6 +203,10 @@ class Settings:
         )
 
 
+class SutConstructionError(Exception):
+    """The front end's factory raised for a legal configuration."""
+
+
 class Subject:
     def __init__(self, trace_settings, res, hs, props):
         from architecture_simulator.gui import webgui
@@ -241,8 +245,11 @@ class Subject:
 
     def new_simulation(self):
         """F-reset: the old object is dropped; only the editor text and the settings survive."""
-        self.sut = self.factory()
-        self.s16 = self.factory()
+        try:
+            self.sut = self.factory()
+            self.s16 = self.factory()
+        except Exception as e:  # noqa: BLE001
+            raise SutConstructionError(f"{type(e).__name__}: {e}") from e
         self.s13 = None
         self.s20 = None
         self.loaded_ok = False
@@ -397,9 +404,13 @@ class Subject:
             valid = was_done or call == "single_step" or (call in ("step", "first_cycle_step") and nc == 1) or (
                 call == "second_cycle_step" and nc == 2
             )
-            if call == "step" and nc != 1:
-                valid = False  # a whole step in the middle of an instruction
-            if (not valid or was_done) and "C20" in self.props:
+            if call == "step" and nc != 1 and not was_done:
+                valid = False  # a whole step in the middle of an instruction (once done, every call is a no-op)
+            if self.reloaded_started:
+                # load_program on a started (possibly mid-instruction) object is outside C20's quantifier
+                # (interleavings of stepping calls) and outside C13's (not started): nothing is asserted
+                valid = None
+            if (valid is False or was_done) and valid is not None and "C20" in self.props:
                 pre = snapshot(sut, self.isa, self.mode)
         try:
             ret = getattr(sut, call)()
@@ -417,7 +428,7 @@ class Subject:
         if out[0] == "raised":
             if out[1] == "StepSequenceError":
                 self.res.faults["F-seq"] += 1
-                if valid:
+                if valid is True:
                     self.violate("C20", "valid-call-rejected", got=out[1], call=call, next_cycle=nc)
                 elif pre is not None:
                     post = snapshot(sut, self.isa, self.mode)
@@ -432,7 +443,7 @@ class Subject:
                 if out[1] != "InstructionExecutionException":
                     self.violate("C15", "runtime-error-type", expected="InstructionExecutionException", got=out[1])
             return out
-        if toy and not valid:
+        if toy and valid is False:
             self.violate("C20", "invalid-call-accepted", expected="StepSequenceError", call=call, next_cycle=nc)
             return out
         if was_done:
